@@ -28,6 +28,7 @@ type arRun struct {
 	nSec    int
 	path    []string
 	keeps   bool // Ar keeps a reference to the section reader
+	probeEOF bool // a read at or past the end of the member's data hit the end of the archive
 }
 
 // arScenario describes what ReadAt delivers.
@@ -115,7 +116,48 @@ func interpretNext(p *Prog, sc arScenario) ([]arRun, string) {
 		if !ok || buf.Abs {
 			return nil, false
 		}
+		nreads := 0
+		for k := range st.Notes {
+			if strings.HasPrefix(k, "readat:") {
+				nreads++
+			}
+		}
 		st.Notes["readat:"+fmtVal(args[1], nil)+fmt.Sprintf("|len=%d", buf.Len_)] = true
+		if nreads > 0 {
+			// a further read on the archive (a probe): relate its offset to the end of
+			// the member's data, off+60+size. The archive may end exactly there, so a
+			// read at or past that point can hit the end of file even in a well-formed
+			// archive; a read before it always succeeds.
+			st.Notes["extra-read"] = true
+			off, ok := linOf(args[1])
+			if !ok {
+				return nil, false
+			}
+			var size LinV
+			found := false
+			for k := range off.T {
+				if strings.HasPrefix(k, "ParseInt(") || strings.HasPrefix(k, "Atoi(") || strings.HasPrefix(k, "ParseUint(") {
+					if !strings.Contains(k, ")%") {
+						size, found = linSym(k), true
+					}
+				}
+			}
+			end := LinV{C: 60, T: map[string]int64{"off": 1}}
+			if found {
+				end = end.add(size, 1)
+			}
+			diff := off.add(end, -1)
+			full := &TupleV{E: []Val{int64(buf.Len_), nilV{}}}
+			eof := &TupleV{E: []Val{int64(0), IfaceV{T: errType, V: "EOF"}}}
+			for i := 0; i < buf.Len_; i++ {
+				st.store(Ptr{Obj: buf.Obj, Path: pathAppend(buf.Path, buf.Lo+i)}, OpaqueV{"data"})
+			}
+			if diff.isConst() && diff.C >= 0 {
+				st.Notes["probe-past-end"] = true
+				return []Val{tagged{full, "probe=ok"}, tagged{eof, "probe=eof-at-end-of-archive"}}, true
+			}
+			return []Val{full}, true
+		}
 		if sc.count > 0 {
 			for i := 0; i < buf.Len_ && int64(i) < sc.count; i++ {
 				var v Val = OpaqueV{fmt.Sprintf("hdr[%d]", i)}
@@ -139,6 +181,13 @@ func interpretNext(p *Prog, sc arScenario) ([]arRun, string) {
 	inID := st.alloc(types.Typ[types.Int], OpaqueV{"the-archive"})
 	arID := st.alloc(arT, mkStruct(arT, map[string]Val{"in": IfaceV{T: types.NewPointer(types.Typ[types.Int]), V: Ptr{Obj: inID}}, "offset": linSym("off")}))
 	st.push(next, []Val{Ptr{Obj: arID}}, nil)
+	m.AltFilter = func(st *State, v Val) Val {
+		if t, ok := v.(tagged); ok {
+			st.Effects = append(st.Effects, t.Tag)
+			return t.V
+		}
+		return v
+	}
 	outs := m.Run(st)
 	var runs []arRun
 	for _, o := range outs {
@@ -150,6 +199,11 @@ func interpretNext(p *Prog, sc arScenario) ([]arRun, string) {
 			return nil, "Next does not return (entry, error)"
 		}
 		r := arRun{st: o, path: o.Path}
+		for _, e := range o.Effects {
+			if e == "probe=eof-at-end-of-archive" {
+				r.probeEOF = true
+			}
+		}
 		switch e := tv.E[1].(type) {
 		case nilV:
 		case IfaceV:
@@ -253,6 +307,16 @@ func arRules(p *Prog, rp *Report, c13 bool) {
 	prefix := "C15"
 	if c13 {
 		prefix = "C13"
+	}
+	if c13 {
+		wf := rp.Rule("C13-LAST", "a well-formed member is returned even when the archive ends right after its data", 1)
+		lost := false
+		for _, r := range runs {
+			if r.err != "" && r.probeEOF {
+				lost = true
+			}
+		}
+		wf.check(!lost && len(succ) > 0, "deb.Ar.Next", pos, "no read at or past the end of the member's data is required to succeed", "Next reads at or past the end of the member's data and fails when that read hits the end of the archive: the last member of a well-formed archive is rejected")
 	}
 	if c13 {
 		cols := rp.Rule("C13-COLS", "entry fields derive from the ar(5) header columns", 6)
